@@ -422,7 +422,7 @@ def run_check(pid, tier, seed):
     if hasattr(plugin, 'gen_cases'):
         cases += list(plugin.gen_cases(rng, tier))
     impl_out = []
-    case_timeout = int(getattr(plugin, 'CASE_TIMEOUT', os.environ.get('VERIF_CASE_TIMEOUT', '60')))
+    case_timeout = int(getattr(plugin, 'CASE_TIMEOUT', os.environ.get('VERIF_CASE_TIMEOUT', '120')))
     timeouts = []
     for ci, c in enumerate(cases):
         try: impl_out.append(call_with_timeout(plugin.impl, c, case_timeout))
